@@ -138,7 +138,7 @@ func (comp) Gen(prop string, rng *rand.Rand, tier string) *core.History {
 		sizes = append(sizes, 1<<31, 1<<32, 1<<32+3, 1<<40)
 	}
 	pickKey := func() []byte { return keyName(rng.Intn(nkeys)) }
-	nops := 15 + rng.Intn(45)
+	nops := core.LongHistory(rng, 15+rng.Intn(45))
 	// phase 0: immunise first (future immunity) in some histories
 	if core.Chance(rng, 1, 3) {
 		var ks []string
